@@ -47,6 +47,7 @@ typedef struct vd_cfg {
     int frate;               /* 100 default */
     int cionly;
     int ds;                  /* frame downsampling ratio of the scorer (1 default) */
+    const char *warp_type, *warp_params;   /* vocal tract length normalisation (NULL = none) */
 } vd_cfg;
 void vd_cfg_default(vd_cfg *c, int lang);
 config_t *vd_make_config(const vd_cfg *c);
